@@ -282,7 +282,8 @@ def tarHdrEngine : List String → String
   | [hexBlock] =>
     match fromHex hexBlock with
     | some b =>
-      let k := match decompressKind b with
+      -- `Decompress` peeks at ten bytes first: a shorter stream is an error before any detection happens
+      let k := if b.length < 10 then "short" else match decompressKind b with
         | .uncompressed => "plain" | .bzip2 => "bzip2" | .gzip => "gzip" | .xz => "xz"
       s!"{isTarHeader b} {k}"
     | none => "bad-op"
